@@ -178,7 +178,7 @@ static short poll_events(SockObj *s, short want) {
       if (!s->rx.empty() || s->rx_fin || s->shut_rd) r |= POLLIN;
       if (s->rx_rst) r |= POLLIN | POLLERR | POLLHUP;
       if (s->rx_fin && s->shut_wr) r |= POLLHUP;
-      if (s->wire.size() < (size_t)s->sndbuf && !s->shut_wr) r |= POLLOUT;
+      if (s->wire.size() < (size_t)s->sndbuf || s->shut_wr) r |= POLLOUT;   // after SHUT_WR a write fails at once: reported writable (tcp_poll)
       if (s->peer_gone && !s->rx_rst) r |= POLLOUT;      // a write would fail at once: writable
     } else if (s->state == SS_CONNECTING) { /* nothing yet */ }
     else if (s->state == SS_NEW) {
@@ -415,7 +415,7 @@ int simk_accept(int fd, struct sockaddr *sa, socklen_t *len) {
   for (;;) {
     if (want_eintr(SC_ACCEPT, n)) { errno = EINTR; probe("eintr.accept"); return -1; }
     if (!s->accept_q.empty()) {
-      if (cfg().p[ST_SHORT] > 0 && flip(ST_SHORT, cfg().p[ST_SHORT] * 0.5)) { errno = EAGAIN; probe("sock.eagain_after_poll"); net().stats.spurious_eagain++; return -1; }
+      if (cfg().p[ST_SHORT] > 0 && !k->faults_off && flip(ST_SHORT, cfg().p[ST_SHORT] * 0.5)) { errno = EAGAIN; probe("sock.eagain_after_poll"); net().stats.spurious_eagain++; return -1; }
       break;
     }
     if (s->nonblock) { errno = EAGAIN; return -1; }
@@ -486,9 +486,9 @@ static ssize_t do_send(int call, int fd, const void *buf, size_t len, int flags,
     if (want_eintr(call, n)) { errno = EINTR; probe("eintr.send"); return -1; }
     size_t room = s->wire.size() < (size_t)s->sndbuf ? (size_t)s->sndbuf - s->wire.size() : 0;
     if (room > 0) {
-      if (cfg().p[ST_SHORT] > 0 && flip(ST_SHORT, cfg().p[ST_SHORT] * 0.5)) { errno = EAGAIN; probe("sock.eagain_after_poll"); net().stats.spurious_eagain++; return -1; }
+      if (cfg().p[ST_SHORT] > 0 && !k->faults_off && flip(ST_SHORT, cfg().p[ST_SHORT] * 0.5)) { errno = EAGAIN; probe("sock.eagain_after_poll"); net().stats.spurious_eagain++; return -1; }
       size_t take = std::min(room, len);
-      if (take > 1 && cfg().p[ST_SHORT] > 0 && flip(ST_SHORT, cfg().p[ST_SHORT])) { take = 1 + choose(ST_SHORT, (uint32_t)take - 1); }
+      if (take > 1 && cfg().p[ST_SHORT] > 0 && !k->faults_off && flip(ST_SHORT, cfg().p[ST_SHORT])) { take = 1 + choose(ST_SHORT, (uint32_t)take - 1); }
       if (take < len) { probe("sock.short_send"); net().stats.short_sends++; }
       s->wire.insert(s->wire.end(), (const uint8_t *)buf, (const uint8_t *)buf + take);
       ev("stream_send", s->id, (int64_t)take);
@@ -518,7 +518,7 @@ static ssize_t do_recv(int call, int fd, void *buf, size_t len, int flags, struc
     if (want_eintr(call, n)) { errno = EINTR; probe(call == SC_RECV ? "eintr.recv" : "eintr.recvfrom"); return -1; }
     if (s->type == SOCK_DGRAM) {
       if (!s->dq.empty()) {
-        if (cfg().p[ST_SHORT] > 0 && flip(ST_SHORT, cfg().p[ST_SHORT] * 0.5)) { errno = EAGAIN; probe("sock.eagain_after_poll"); net().stats.spurious_eagain++; return -1; }
+        if (cfg().p[ST_SHORT] > 0 && !k->faults_off && flip(ST_SHORT, cfg().p[ST_SHORT] * 0.5)) { errno = EAGAIN; probe("sock.eagain_after_poll"); net().stats.spurious_eagain++; return -1; }
         size_t idx = 0;
         if (k->net_faults && s->dq.size() > 1 && cfg().p[ST_NET] > 0 && flip(ST_NET, cfg().p[ST_NET])) { idx = 1 + choose(ST_NET, (uint32_t)s->dq.size() - 1); net().stats.dgrams_reordered++; }
         Dgram d = s->dq[idx]; s->dq.erase(s->dq.begin() + idx);
@@ -534,9 +534,9 @@ static ssize_t do_recv(int call, int fd, void *buf, size_t len, int flags, struc
       if (s->state == SS_CONNECTING) { errno = EAGAIN; return -1; }
       if (s->shut_rd) return 0;
       if (!s->rx.empty()) {
-        if (cfg().p[ST_SHORT] > 0 && flip(ST_SHORT, cfg().p[ST_SHORT] * 0.5)) { errno = EAGAIN; probe("sock.eagain_after_poll"); net().stats.spurious_eagain++; return -1; }
+        if (cfg().p[ST_SHORT] > 0 && !k->faults_off && flip(ST_SHORT, cfg().p[ST_SHORT] * 0.5)) { errno = EAGAIN; probe("sock.eagain_after_poll"); net().stats.spurious_eagain++; return -1; }
         size_t take = std::min(len, s->rx.size());
-        if (take > 1 && cfg().p[ST_SHORT] > 0 && flip(ST_SHORT, cfg().p[ST_SHORT])) { take = 1 + choose(ST_SHORT, (uint32_t)take - 1); probe("sock.short_recv"); }
+        if (take > 1 && cfg().p[ST_SHORT] > 0 && !k->faults_off && flip(ST_SHORT, cfg().p[ST_SHORT])) { take = 1 + choose(ST_SHORT, (uint32_t)take - 1); probe("sock.short_recv"); }
         std::copy(s->rx.begin(), s->rx.begin() + take, (uint8_t *)buf);
         s->rx.erase(s->rx.begin(), s->rx.begin() + take);
         if (from && fromlen) *fromlen = 0;
